@@ -26,6 +26,7 @@ pub struct Probe {
     pub tx_frame_base: u32,
     pub tx_frame_next: u32,
     pub tx_frame_log_len: u32,
+    pub tx_frame_log_base: u32,
     pub rx_packet_base: u32,
     pub rx_frame_base: u32,
     pub rx_alloc: usize,
